@@ -288,7 +288,10 @@ func runGroup(c *mon.Ctx, g *groups.Group) {
 			if (race || !c.Thorough()) && ss != "random" && ss != "top-only" && (int(cw)+len(ss))%3 != 0 {
 				continue
 			}
-			for _, ps := range []string{"distinct", "pairs"} {
+			for _, ps := range []string{"distinct", "pairs", "infinity"} {
+				if ps == "infinity" && ss != "random" && !c.Thorough() {
+					continue // points at infinity mixed into the input: every window size / bucket method, random scalars
+				}
 				sc := shapeScalars(e, ss, nInner, cw)
 				idx := shapePoints(e, ps, nInner)
 				want := e.expected(idx, sc)
